@@ -89,6 +89,8 @@ def static_phase(run, prop, extra_sources=()):
     lines, meta = [], []
     skipped = collections.Counter()
     sizes = collections.Counter()
+    unexpected = []
+    flags = collections.Counter()
     t0 = time.time()
 
     def add(node, src, origin):
@@ -99,8 +101,8 @@ def static_phase(run, prop, extra_sources=()):
                 if prop == 'C06':
                     if 'rd' not in d:
                         continue
-                    if d['rd']['empty_sets']:
-                        skipped['rd state with an empty definition set'] += 1
+                    flags['empty_sets'] += d['rd']['empty_sets']
+                    flags['param_of_bad'] += d['rd']['param_of_bad']
                     lines.append(dc.c06_graph_line(d, a.name_definitions(fn, g)))
                 else:
                     if 'live' not in d or 'fnd' not in d:
@@ -110,7 +112,9 @@ def static_phase(run, prop, extra_sources=()):
                 meta.append((origin, d['fn'], len(d['nodes']), len(d['edges'])))
                 sizes[min(len(d['nodes']) // 10 * 10, 100)] += 1
         except dc.Unsupported as e:
-            skipped[str(e).split(':')[0] + ': ' + ('except-as/str node' if "'str' object" in str(e) else str(e)[:40].split('<')[0])] += 1
+            skipped[e.kind] += 1
+            if e.kind not in dc.EXPECTED_CRASH_KINDS:
+                unexpected.append({'function': origin, 'error': str(e)[:160]})
     nrepo = 0
     for rf in progen.repo_functions():
         node = ast.parse(ast.unparse(rf.node)).body[0]
@@ -128,6 +132,13 @@ def static_phase(run, prop, extra_sources=()):
                          'skipped': dict(skipped), 'nodes_histogram': {str(k): v for k, v in sorted(sizes.items())},
                          'serialise_s': round(time.time() - t0, 1)}
     keys = STATIC_KEYS[prop]
+    run.oblige('corpus:analyses-crash-only-in-the-known-ways', 'checker', not unexpected,
+               'the real analyses raise on %d corpus functions in ways not seen on the pinned tree, e.g. %s' % (len(unexpected), json.dumps(unexpected[:3]))
+               if unexpected else 'crash kinds: %s' % dict(skipped))
+    if prop == 'C06':
+        run.oblige('annotation:no-empty-definition-set', 'checker', flags['empty_sets'] == 0, 'states with a symbol mapped to an empty set: %d' % flags['empty_sets'])
+        run.oblige('annotation:param_of', 'checker', flags['param_of_bad'] == 0,
+                   'parameter definitions whose param_of is not the owning function (or non-parameter definitions with one): %d' % flags['param_of_bad'])
     if not run.driver_ok:
         for k, what in keys:
             run.oblige('checker:%s' % k, 'checker', False, 'driver unavailable')
@@ -175,6 +186,7 @@ def _work(task):
         pd = do.ProgramData(ins)
     except dc.Unsupported as e:
         res['skipped'] = 'analysis unsupported: ' + str(e)[:40]
+        res['crash'] = str(e)[:200]
         return res
     except di.NotInstrumentable as e:
         res['skipped'] = 'not instrumentable: ' + str(e)[:40]
@@ -283,6 +295,10 @@ def dynamic_phase(run, prop, programs):
     for r, t in zip(results, tasks):
         if r['skipped']:
             skipped[r['skipped']] += 1
+            if r.get('crash') and 'except-as' not in r['skipped']:
+                # generated programs are in the property's class by construction (no `except … as`): the analysis must run
+                run.fail('%s: the real analysis raises on a program of the property\'s class: %s' % (prop, r['crash']),
+                         {'program': t[1], 'error': r['crash']}, None)
             continue
         sources.append((r['key'], r['source']))
         kinds[r['kind']] += 1
